@@ -56,14 +56,22 @@ def strip_clippy(w):
 def weave_signed_shift(w, sc):
     w.contract(sc["signed_shift.contract"], ret="r")
     w.body_first(sc["signed_shift.first"])
-    w.ascribe(r"^\s*let mut new_definitions = vec!\[\];$", "Vec<(&'a str, Rc<Term<'a>>, Rc<Term<'a>>)>")
-    w.for_invariant(1, "it", sc["signed_shift.let.loop"])
+    # the name of the vector being built is taken from the code, not fixed in the sidecar
+    i = w.find(r"^\s*let mut \w+ = vec!\[\];$")
+    vec = re.match(r"^\s*let mut (\w+) = vec!\[\];$", w.lines[i]).group(1)
+    i = w.find(r"^\s*let \w+ = cutoff \+ definitions\.len\(\);$")
+    cut = re.match(r"^\s*let (\w+) = ", w.lines[i]).group(1)
+    sub = lambda t: t.replace("$VEC", vec).replace("$CUT", cut)
+    w.ascribe(r"^\s*let mut \w+ = vec!\[\];$", "Vec<(&'a str, Rc<Term<'a>>, Rc<Term<'a>>)>")
+    w.for_invariant(1, "it", sub(sc["signed_shift.let.loop"]))
     # first statement of the loop body
-    i = w.find(r"^\s*new_definitions\.push\(\($")
+    i = w.find(r"^\s*" + vec + r"\.push\(\($")
     w.lines[i:i] = sc["signed_shift.let.body"].rstrip("\n").split("\n")
-    w.log["annotations"].append({"fn": w.name, "kind": "proof-before", "anchor": "new_definitions.push(("})
-    w.before(r"^\s*let new_cutoff = cutoff \+ definitions\.len\(\);$", sc["signed_shift.let.pre"])
-    w.bind_tail(r"^            Some\(Term \{$", "shifted", sc["signed_shift.let.tail.post"], pre_text=sc["signed_shift.let.tail.pre"])
+    w.log["annotations"].append({"fn": w.name, "kind": "proof-before", "anchor": vec + ".push(("})
+    i_let = w.find(r"^        Let\(definitions, body\) => \{$")
+    w.lines[i_let + 1 : i_let + 1] = sc["signed_shift.let.pre"].rstrip("\n").split("\n")
+    w.log["annotations"].append({"fn": w.name, "kind": "proof-after", "anchor": "Let(definitions, body) => {"})
+    w.bind_tail(r"^            Some\(Term \{$", "shifted", sc["signed_shift.let.tail.post"], pre_text=sub(sc["signed_shift.let.tail.pre"]))
 
 
 def weave_unsigned_shift(w, sc):
@@ -127,8 +135,14 @@ def weave_open(w, sc):
     w.contract(sc["open.contract"], ret="r")
     w.body_first(sc["open.first"])
     drop_hole_arm(w, r"^        Unifier\(subterm, subterm_shift\) => \{$", "hole_arm_unreachable()")
-    w.before(r"^\s*let new_index_to_replace = index_to_replace \+ definitions\.len\(\);$", sc["open.let.pre"])
-    map_collect_to_loop(w, r"^\s*definitions$", "it", sc["open.let.loop"], body_pre=sc["open.let.body"])
+    i_let = w.find(r"^        Let\(definitions, body\) => \{$")
+    w.lines[i_let + 1 : i_let + 1] = sc["open.let.pre"].rstrip("\n").split("\n")
+    w.log["annotations"].append({"fn": w.name, "kind": "proof-after", "anchor": "Let(definitions, body) => {"})
+    i = w.find(r"^\s*let \w+ = index_to_replace \+ definitions\.len\(\);$")
+    idx = re.match(r"^\s*let (\w+) = ", w.lines[i]).group(1)
+    i = w.find(r"^\s*let \w+ = shift_amount \+ definitions\.len\(\);$")
+    shf = re.match(r"^\s*let (\w+) = ", w.lines[i]).group(1)
+    map_collect_to_loop(w, r"^\s*definitions$", "it", sc["open.let.loop"].replace("$IDX", idx).replace("$SHIFT", shf), body_pre=sc["open.let.body"])
     w.bind_tail(r"^            Term \{$", "opened", sc["open.let.tail.post"])
 
 
@@ -245,17 +259,24 @@ def hoist_argument(w, stmt_regex, arg_regex, var, proof_text):
     w.rewrite_lines("R8-hoist-argument", i, j, new, note="struct-literal argument bound to a local before the call so that a proof block can mention it")
 
 
-BIGINT_OPS = [
-    (r"IntegerLiteral\(-(\w+)\)", r"IntegerLiteral(bigint_neg(\1))", 1),
-    (r"IntegerLiteral\((\w+) \+ (\w+)\)", r"IntegerLiteral(bigint_add(\1, \2))", 1),
-    (r"IntegerLiteral\((\w+) - (\w+)\)", r"IntegerLiteral(bigint_sub(\1, \2))", 1),
-    (r"IntegerLiteral\((\w+) \* (\w+)\)", r"IntegerLiteral(bigint_mul(\1, \2))", 1),
-    (r"if (integer1) < (integer2) \{", r"if bigint_lt(\1, \2) {", 1),
-    (r"if (integer1) <= (integer2) \{", r"if bigint_le(\1, \2) {", 1),
-    (r"if (integer1) == (integer2) \{", r"if bigint_eq(\1, \2) {", 1),
-    (r"if (integer1) > (integer2) \{", r"if bigint_gt(\1, \2) {", 1),
-    (r"if (integer1) >= (integer2) \{", r"if bigint_ge(\1, \2) {", 1),
-]
+def rewrite_bigint_ops(w):
+    """R3: operator sugar on the identifiers bound by `IntegerLiteral(name)` patterns."""
+    names = set()
+    for l in w.lines:
+        names.update(re.findall(r"IntegerLiteral\((\w+)\)", l))
+    names -= {"quotient"}
+    if not names:
+        raise LostAnchor(f"{w.src.rel} fn {w.name}: no IntegerLiteral(..) patterns found")
+    alt = "|".join(sorted(names))
+    ops = [(r"<=", "bigint_le"), (r">=", "bigint_ge"), (r"==", "bigint_eq"), (r"<", "bigint_lt"), (r">", "bigint_gt"),
+           (r"\+", "bigint_add"), (r"-", "bigint_sub"), (r"\*", "bigint_mul")]
+    total = 0
+    for op, fn in ops:
+        total += w.rewrite_regex("R3-bigint-operator", r"\b(" + alt + r") " + op + r" (" + alt + r")\b", fn + r"(\1, \2)",
+                                 note="overloaded operator on &BigInt as a named function with the assumed num-bigint contract")
+    total += w.rewrite_regex("R3-bigint-operator", r"\(-(" + alt + r")\)", r"(bigint_neg(\1))", note="unary minus on &BigInt as a named function")
+    if total != 9:
+        raise LostAnchor(f"{w.src.rel} fn {w.name}: expected 9 BigInt operator sites, rewrote {total}")
 
 
 def weave_is_value(w, sc):
@@ -269,16 +290,16 @@ def weave_step(w, sc):
     i = w.find(r"^        Unifier\(subterm, subterm_shift\) => \{$")
     drop_hole_arm(w, r"^        Unifier\(subterm, subterm_shift\) => \{$", "hole_arm_unreachable_opt()")
     # R3: operator sugar on &BigInt
-    for rx, rp, n in BIGINT_OPS:
-        w.rewrite_regex("R3-bigint-operator", rx, rp, expect=n, note="overloaded operator on &BigInt as a named function with the assumed num-bigint contract")
-    closure_contract(w, r"\.checked_div\(integer2\)\.map\(\|quotient\| Term \{$", sc["step.div.closure.head"])
-    # beta reduction needs the overflow guards of its operands at cutoff 0
-    w.before(r"^\s*Some\(open\(body, 0, argument, 0\)\)$", """                proof {
-                    lemma_ok_weaken(vr(body), 1, SB() as nat, 0, BOUND() as nat);
-                    lemma_ok_weaken(vr(argument), 0, SB() as nat, 0, BOUND() as nat);
-                }""")
+    rewrite_bigint_ops(w)
+    if w.count(r"\.map\(\|quotient\| Term \{$"):
+        closure_contract(w, r"\.map\(\|quotient\| Term \{$", sc["step.div.closure.head"])
+    i_app = w.find(r"^        Application\(applicand, argument\) => \{$")
+    w.lines[i_app + 1 : i_app + 1] = sc["step.app.head"].rstrip("\n").split("\n")
+    w.log["annotations"].append({"fn": w.name, "kind": "proof-after", "anchor": "Application(applicand, argument) => {"})
     # the Let arm
     i_let = w.find(r"^        Let\(definitions, body\) => \{$")
+    w.lines[i_let + 1 : i_let + 1] = sc["step.let.none.pre"].rstrip("\n").split("\n")
+    w.log["annotations"].append({"fn": w.name, "kind": "proof-after", "anchor": "Let(definitions, body) => {"})
     i = w.find(r"^\s*if let Some\(\(variable, annotation, definition\)\) = definitions\.first\(\) \{$", 1, i_let)
     w.lines[i + 1 : i + 1] = sc["step.let.some.pre"].rstrip("\n").split("\n")
     w.log["annotations"].append({"fn": w.name, "kind": "proof-after", "anchor": "definitions.first()"})
@@ -292,7 +313,6 @@ def weave_step(w, sc):
     i_fin = w.find(r"^\s*Some\(Term \{$", 1, i_sb)
     ind = len(w.lines[i_fin]) - len(w.lines[i_fin].lstrip())
     w.bind_tail(r"^" + " " * ind + r"Some\(Term \{$", "substituted", sc["step.let.final.post"], nth=w.count_until(r"^" + " " * ind + r"Some\(Term \{$", i_fin))
-    w.before(r"^\s*Some\(\(\*\*body\)\.clone\(\)\)$", sc["step.let.none.pre"])
 
 
 def weave_evaluate(w, sc):
@@ -300,9 +320,9 @@ def weave_evaluate(w, sc):
     w.before(r"^    let mut term = term\.clone\(\);$", sc["evaluate.pre"])
     w.after(r"^    let mut term = term\.clone\(\);$", sc["evaluate.cloned"])
     w.while_invariant(1, sc["evaluate.loop"])
-    i = w.find(r"^        term = stepped_term;$")
+    i = w.find(r"^        term = \w+;$")
     w.lines[i:i] = sc["evaluate.loop.body.pre"].rstrip("\n").split("\n")
-    w.after(r"^        term = stepped_term;$", sc["evaluate.loop.body.post"])
+    w.after(r"^        term = \w+;$", sc["evaluate.loop.body.post"])
     w.before(r"^    if is_value\(&term\) \{$", sc["evaluate.after"])
     w.rewrite_regex("R5-stuck-message", r'format!\("Evaluation of \{\} is stuck!", term\.to_string\(\)\.code_str\(\)\)', "stuck_message(&term)", expect=1, note="message text is not part of C02; Display/format! are outside the verifier's reach")
 
